@@ -16,3 +16,16 @@ MANIFEST_TEXT = {
         "technique": "Lean 4 proof over an executable model + differential correspondence (exhaustive grid)",
     },
 }
+
+PROPS["C09"] = {
+    "rule": "abi.QuoteToProto on: every truncation length of the Intel sample and of synthetic quotes, boundary values {0,1,exact-1,exact,exact+1,max/2,max} of each of the 9 size/type fields singly and in pairs, trailing bytes, random/structure-aware mutants, fresh synthetic quotes (distinct bytes in equal-sized fields); abi.QuoteToAbiBytes/CheckQuoteV4/sub-serialisers on every single structural mutation of valid messages (each sub-message absent, each bytes field at length 0/n-1/n+1, RTMR count 0-5, numeric boundary values) and random well-formed messages; non-trivial = input reaches past the fixed header+body (>= 636 bytes) / message passes CheckQuoteV4; distinct by input spec",
+    "trusted_base": ["uint32 truncation of lengths is modelled without wrap-around: inputs are assumed shorter than 2^32 bytes (O-6)",
+                     "serialisers are modelled as check-then-concatenate; that Go's make+copy-at-offset equals concatenation rests on the regenerated offsets tiling the records (theorem layout_contiguous) and on the behavioural comparison"],
+    "assumptions": ["protobuf nil/empty bytes are identified (proto.Equal semantics)"],
+}
+
+MANIFEST_TEXT["C09"] = {
+    "text": "Lean theorems over all byte strings: serialize_parse (accepted input is reproduced byte for byte), signed_message_is_prefix (re-serialised header||body = bytes 0-631), layout_contiguous (regenerated offset table tiles the records in Intel's order), F1 witnesses; Go-faithful parser/serialiser model with the regenerated offsets, compared with abi.QuoteToProto / QuoteToAbiBytes on every truncation, size-field boundary pairs, mutants and structural message mutations, with an independent cursor-based layout oracle.",
+    "note": "Trusted: Lean kernel, extractor, harness. Inputs assumed < 2^32 bytes (uint32 truncation not modelled). Serialisers modelled as check-then-concatenate (justified by layout_contiguous + behavioural comparison). protobuf decoding itself is not modelled.",
+    "technique": "Lean 4 proof over a Go-faithful executable model + differential correspondence",
+}
